@@ -480,6 +480,9 @@ impl<'a> Outbound<'a> {
     }
 
     pub(super) fn arm_replay(&mut self) {
+        // A queued PINGREQ belongs to the keep-alive of the connection that ended.
+        self.pending_control
+            .retain(|entry| entry.action != ControlAction::PingReq);
         if !self.has_pending_state() {
             return;
         }
